@@ -182,3 +182,4 @@ theorem new_nodes_saved (t : Option BNode) (k : Bits) (v : Bytes) (sub : Bool) (
     x ∈ (bsetTopS t k v sub).2 ∨ ∃ n, t = some n ∧ x ∈ trieNodes n := saves_complete t k v sub n' h x hx
 
 end PyTrie.Props.C12
+
